@@ -383,6 +383,70 @@ fn far_cases(ctx: &Ctx) {
     }
 }
 
+/// On a part whose flash is exactly 2^k words the program counter of the real chip wraps around, and some
+/// assemblers let rjmp/rcall "reach" a target the short way round. The statement does not: a target is
+/// reached iff target = address + 1 + d with d in the field. Every device size class, instruction near
+/// either end of the flash, target near the other end (so that d is far outside the field but d -/+ size
+/// would fit), by label and by number; and in-range controls at the same places.
+fn wrap_around_cases(ctx: &Ctx) {
+    let forms = isa::forms();
+    let table = crate::refmodel::devices::table();
+    let mut by_size: std::collections::BTreeMap<u32, String> = std::collections::BTreeMap::new();
+    for (n, d) in &table {
+        if d.flash_size >= 1024 && d.flash_size.is_power_of_two() && crate::refmodel::devices::forbidding_flag(d, "rjmp").is_none() {
+            by_size.entry(d.flash_size).or_insert(n.clone());
+        }
+    }
+    for (size, dev) in &by_size {
+        let size = *size as i64;
+        for form in forms.iter().filter(|f| f.mn == "rjmp" || f.mn == "rcall" || f.mn == "brne") {
+            let Some(Opk::Rel { bits, .. }) = form.ops.last().copied() else { continue };
+            let h = 1i64 << (bits - 1);
+            for (at, target) in [(0i64, size - 1), (3, size - 5), (0, size - h / 2), (size - 2, 0), (size - 3, 4), (size - h / 2, 1), (5, 5 + h + 3), (size - 2, size - 2 - h)] {
+                if at < 0 || target < 0 || at >= size || target >= size {
+                    continue;
+                }
+                let d = target - (at + 1);
+                let fits = d >= -h && d < h;
+                for by_label in [true, false] {
+                    let operand = if by_label { "the_target".to_string() } else { format!("0x{:x}", target) };
+                    let ins = format!("\t{} {}", form.mn, operand);
+                    // the label and the instruction at their places, lower address first
+                    let src = if target <= at {
+                        format!("; C03 wrap-around case\n.device {}\n.org {}\nthe_target:\n\tnop\n.org {}\n{}\n", dev, target, at.max(target + 1), ins)
+                    } else {
+                        format!("; C03 wrap-around case\n.device {}\n.org {}\n{}\n.org {}\nthe_target:\n\tnop\n", dev, at, ins, target)
+                    };
+                    let src = src.replace(".org 0\n", "");
+                    let out = fw::build_str(&src);
+                    ctx.eval(1);
+                    ctx.count("wrap_around_cases", 1);
+                    ctx.distinct(fw::mix64(0x3AC3 ^ (size as u64) << 8, (at as u64) << 24 ^ target as u64 ^ (by_label as u64) << 60));
+                    let at_real = if target <= at { at.max(target + 1) } else { at };
+                    let d_real = target - (at_real + 1);
+                    let fits_real = d_real >= -h && d_real < h;
+                    let _ = (d, fits);
+                    let ok = match &out {
+                        Outcome::Panic(_) => false,
+                        Outcome::Err(_) => !fits_real,
+                        Outcome::Ok(b) => {
+                            let off = at_real as usize * 2;
+                            fits_real && b.code.get(off..off + 2).map(|w| w == &isa::words_to_bytes(&isa::encode(form, &[d_real]))[..]).unwrap_or(false)
+                        }
+                    };
+                    if !ok {
+                        ctx.violation(
+                            format!("rel/{}/{}/wrap-around-{}", form.name, if fits_real { "in-range-wrong" } else { "out-of-range-accepted" }, size),
+                            format!("{} at {} to {} on {} ({} words): d = {} {}: {}", form.mn, at_real, target, dev, size, d_real, if fits_real { "fits" } else { "does not fit" }, fw::clip(&format!("{:?}", out.kind()), 80)),
+                            json!({"source": src, "form": form.name, "flag": 0, "d": d_real, "fits": fits_real, "wrap": true, "instr_word_addr": at_real, "observed": out.kind()}),
+                        );
+                    }
+                }
+            }
+        }
+    }
+}
+
 /// The instruction sits in a one-line macro body that is expanded several times back to back (all
 /// copies share one source line number), with a pc-relative target and with a label outside.
 fn macro_cases(ctx: &Ctx) {
@@ -512,6 +576,7 @@ pub fn run(ctx: &Ctx) -> i32 {
         return 2;
     }
     far_cases(ctx);
+    wrap_around_cases(ctx);
     macro_cases(ctx);
     let cs = cases(ctx);
     let mut forms_seen = std::collections::BTreeSet::new();
@@ -524,7 +589,7 @@ pub fn run(ctx: &Ctx) -> i32 {
     ctx.exhaustive.store(true, std::sync::atomic::Ordering::Relaxed);
     fw::finish(
         ctx,
-        "for each of the 18 br<cond> mnemonics, brbs/brbc x 8 flags, rjmp and rcall: every displacement in the stated window (branches -80..80; rjmp/rcall around both limits and zero, thorough -2100..2100) x filler mixes (nop-only and random mixes of one/two-word instructions, .dw/.db/.dq data, .org gaps) x target spellings (label, label+k, label-k, pc±k) x start addresses; plus far targets: displacements within ±65/±2049 of ±2^k for k up to 40, pc-relative and through labels placed with .org (all must be rejected); and every form inside a one-line macro body expanded several times back to back (pc-relative and label targets), and with the target as a macro parameter (pc-relative text at both limits and one beyond, forward and backward labels; macro defined and called inside taken conditional branches); distinct_nontrivial = distinct (mnemonic, flag, displacement) triples",
+        "for each of the 18 br<cond> mnemonics, brbs/brbc x 8 flags, rjmp and rcall: every displacement in the stated window (branches -80..80; rjmp/rcall around both limits and zero, thorough -2100..2100) x filler mixes (nop-only and random mixes of one/two-word instructions, .dw/.db/.dq data, .org gaps) x target spellings (label, label+k, label-k, pc±k) x start addresses; plus far targets: displacements within ±65/±2049 of ±2^k for k up to 40, pc-relative and through labels placed with .org (all must be rejected); rjmp/rcall/brne near either end of the flash of one device per power-of-two flash size with the target near the other end (a wrapped displacement would fit; must be rejected) and in-range controls there; and every form inside a one-line macro body expanded several times back to back (pc-relative and label targets), and with the target as a macro parameter (pc-relative text at both limits and one beyond, forward and backward labels; macro defined and called inside taken conditional branches); distinct_nontrivial = distinct (mnemonic, flag, displacement) triples",
         &["distances are realised with reference encodings of the filler items (refmodel/isa.rs); decode by the independent decoder"],
     )
 }
@@ -538,10 +603,19 @@ pub fn replay(ctx: &Ctx, case: &Value) -> i32 {
     ctx.eval(1);
     ctx.distinct(1);
     ctx.distinct(2);
-    let bad = match &out {
-        Outcome::Panic(_) => true,
-        Outcome::Err(_) => fits,
-        Outcome::Ok(r) => !fits || fw::hex(&r.code, 1 << 20) != case["expect_code"].as_str().unwrap_or(""),
+    let bad = if case["wrap"].as_bool() == Some(true) {
+        let at = case["instr_word_addr"].as_u64().unwrap_or(0) as usize * 2;
+        match &out {
+            Outcome::Panic(_) => true,
+            Outcome::Err(_) => fits,
+            Outcome::Ok(r) => !fits || r.code.get(at..at + 2).map(|w| w != &isa::words_to_bytes(&isa::encode(form, &[d]))[..]).unwrap_or(true),
+        }
+    } else {
+        match &out {
+            Outcome::Panic(_) => true,
+            Outcome::Err(_) => fits,
+            Outcome::Ok(r) => !fits || fw::hex(&r.code, 1 << 20) != case["expect_code"].as_str().unwrap_or(""),
+        }
     };
     if bad {
         ctx.violation(case["sig"].as_str().unwrap_or("rel/replay").to_string(), format!("replayed case still fails: {}", out.kind()), case.clone());
